@@ -20,6 +20,7 @@ fn main() {
         let f: vharness::monitor::CaseFn = match (args[2].as_str(), stream) {
             ("C15", 1) => vharness::checks_misc::c15_soup_case,
             ("C13", 1) => vharness::checks_conc::c13_case,
+            ("C14", 1) => vharness::checks_conc::c14_case,
             _ => usage(),
         };
         std::process::exit(vharness::monitor::worker_main(seed, stream, from, to, f));
